@@ -28,8 +28,8 @@ GEN_HARNESS = os.path.join(VERIF, "harness", "c15_fields.cpp")
 # C++ facts the harness needs to drive a class: how to build one, which members make up the header image (in
 # serialisation order), whether a RawPDU payload is attached (keeps the "next protocol" field from being derived),
 # statements that re-establish a class invariant after the image has been poked in (`o` is the object).
-def cfg(include, ctype, image, inner=True, ctor=None, fixup="", files=None, names=None, exprs=None, arg=None, payload=3, parent=None):
-    return dict(include=include, type=ctype, image=image, inner=inner, ctor=ctor or f"new {ctype}()", fixup=fixup, parent=parent,
+def cfg(include, ctype, image, inner=True, ctor=None, fixup="", files=None, names=None, exprs=None, arg=None, payload=3, parent=None, bases=None):
+    return dict(include=include, type=ctype, image=image, inner=inner, ctor=ctor or f"new {ctype}()", fixup=fixup, parent=parent, bases=bases or [],
                 files=files or [], names=names or {}, exprs=exprs or {}, arg=arg or {}, payload=payload)
 
 
@@ -57,6 +57,19 @@ CONFIG = {
     "VXLAN": cfg("tins/vxlan.h", "Tins::VXLAN", [("header_", "vxlan_header")], files=["src/vxlan.cpp", "include/tins/vxlan.h"],
                  names={"flags": ("get_flags", "set_flags"), "vni": ("get_vni", "set_vni")}),
     "STP": cfg("tins/stp.h", "Tins::STP", [("header_", "stp_header")], files=["src/stp.cpp", "include/tins/stp.h"]),
+    "Dot11Data": cfg("tins/dot11/dot11_data.h", "Tins::Dot11Data", [("header_", "dot11_header"), ("ext_header_", "dot11_extended_header")],
+                     files=["src/dot11/dot11_data.cpp", "include/tins/dot11/dot11_data.h", "src/dot11/dot11_base.cpp", "include/tins/dot11/dot11_base.h"],
+                     bases=["Tins::Dot11"]),
+    "Dot11Beacon": cfg("tins/dot11/dot11_beacon.h", "Tins::Dot11Beacon", [("header_", "dot11_header"), ("ext_header_", "dot11_extended_header")],
+                       files=["src/dot11/dot11_mgmt.cpp", "include/tins/dot11/dot11_mgmt.h", "src/dot11/dot11_base.cpp", "include/tins/dot11/dot11_base.h"],
+                       bases=["Tins::Dot11ManagementFrame", "Tins::Dot11"]),
+    "Dot11RTS": cfg("tins/dot11/dot11_control.h", "Tins::Dot11RTS", [("header_", "dot11_header"), ("taddr_", "@bytes")],
+                    files=["src/dot11/dot11_control.cpp", "include/tins/dot11/dot11_control.h", "src/dot11/dot11_base.cpp", "include/tins/dot11/dot11_base.h"],
+                    bases=["Tins::Dot11ControlTA", "Tins::Dot11Control", "Tins::Dot11"]),
+    "Dot11BlockAckRequest": cfg("tins/dot11/dot11_control.h", "Tins::Dot11BlockAckRequest",
+                                [("header_", "dot11_header"), ("taddr_", "@bytes"), ("bar_control_", "@int"), ("start_sequence_", "@int")],
+                                files=["src/dot11/dot11_control.cpp", "include/tins/dot11/dot11_control.h", "src/dot11/dot11_base.cpp", "include/tins/dot11/dot11_base.h"],
+                                bases=["Tins::Dot11ControlTA", "Tins::Dot11Control", "Tins::Dot11"]),
     "Dot11": cfg("tins/dot11/dot11_base.h", "Tins::Dot11", [("header_", "dot11_header")],
                  files=["src/dot11/dot11_base.cpp", "include/tins/dot11/dot11_base.h"]),
 }
@@ -231,8 +244,17 @@ def norm(body):
     return re.sub(r"\s+", " ", le_branch(strip_comments(body))).strip()
 
 
-def find_function(texts, cls, name, setter):
-    """body text and parameter name of the setter `void cls::name(T p)` / getter `R cls::name() const`"""
+def find_function(texts, cls, name, setter, bases=()):
+    """body text and parameter name of the setter `void cls::name(T p)` / getter `R cls::name() const`
+    (looked up in the class, then in its base classes)"""
+    for c in [cls] + list(bases):
+        r = find_function1(texts, c, name, setter)
+        if r[0] is not None:
+            return r
+    return None, None
+
+
+def find_function1(texts, cls, name, setter):
     short = cls.split("::")[-1]
     for txt in texts:
         if setter:
@@ -273,9 +295,16 @@ def classify(cls, conf, row, texts):
         return ("custom", "expression accessor")
     imgs = "|".join(re.escape(i[0]) for i in conf["image"])
     M = r"(?:this->)?(" + imgs + r")\.([\w\.]+(?:\[\d+\])?)"
-    gbody, _ = find_function(texts, conf["type"], gname, False)
+    selfs = [lv for lv, st in conf["image"] if st in ("@int", "@bytes")]
+
+    def selfnorm(b):
+        for lv in selfs:
+            b = re.sub(r"\b" + re.escape(lv) + r"\b(?!\.)", lv + "." + lv, b)
+        return b
+    gbody, _ = find_function(texts, conf["type"], gname, False, conf["bases"])
     if gbody is None:
         return ("custom", "getter not found")
+    gbody = selfnorm(gbody)
     gconv = None
     for conv, pat in [("none", r"return " + M + r";"),
                       ("be", r"return Endian::be_to_host(?:<\w+>)?\(" + M + r"\);"),
@@ -294,9 +323,10 @@ def classify(cls, conf, row, texts):
     if row["access"] == "ro":
         conv = "bytes" if row["kind"] == "bytes" else gconv
         return ("simple", gimg, gpath, conv)
-    sbody, p = find_function(texts, conf["type"], sname, True)
+    sbody, p = find_function(texts, conf["type"], sname, True, conf["bases"])
     if sbody is None:
         return ("custom", "setter not found")
+    sbody = selfnorm(sbody)
     P = re.escape(p)
     sconv = None
     for conv, pat in [("none", M + r" = " + P + r";"),
@@ -434,6 +464,9 @@ def build_tables():
         pp = preprocessed(conf["include"])
         members = []        # (image index, image lvalue, struct, path, kind, bfwidth)
         for idx, (lv, st) in enumerate(conf["image"]):
+            if st in ("@int", "@bytes"):                 # a scalar / address member of the class, not a struct
+                members.append((idx, lv, st, lv, "selfint" if st == "@int" else "selfarr", 0))
+                continue
             body = find_struct_body(pp, st)
             if body is None:
                 raise RuntimeError(f"struct {st} not found in {conf['include']}")
@@ -474,7 +507,11 @@ int main() {''')
             for (i2, lv2, st2, path, kind, w) in t["members"]:
                 if i2 != idx:
                     continue
-                if kind == "int":
+                if kind == "selfint":
+                    s.append(f"    printf(\"M {cname} {lv} %zu %zu 1\\n\", base * 8, 8 * sizeof(o.{lv}));")
+                elif kind == "selfarr":
+                    s.append(f"    printf(\"A {cname} {lv} %zu %zu\\n\", base, sizeof(o.{lv}));")
+                elif kind == "int":
                     s.append(f"    P_INT(\"{cname}\", base, {S}, {path});")
                 elif kind == "bf":
                     s.append(f"    P_BF(\"{cname}\", base, {S}, {path}, {w});")
@@ -489,7 +526,7 @@ int main() {''')
                 s.append(f"    printf(\"R {cname} {r['fld']} {conf['arg'][r['fld']]}\\n\");")
             else:
                 sname = conf["names"].get(r["fld"], (r["fld"], r["fld"]))[1]
-                s.append(f"    printf(\"R {cname} {r['fld']} %s\\n\", arg_info<T>(&T::{sname}).c_str());")
+                s.append(f"    printf(\"R {cname} {r['fld']} %s\\n\", arg_info(&T::{sname}).c_str());")
         s.append("  }")
     s.append("  return 0;\n}\n")
     return "\n".join(s)
@@ -558,14 +595,14 @@ def lean_tables(classes, rows, tables, pr):
     memtab = []
     for cname in sorted(tables):
         for (idx, lv, st, path, kind, w) in tables[cname]["members"]:
-            if kind in ("int", "bf"):
+            if kind in ("int", "bf", "selfint"):
                 pos, width, ok = pr["mem"][(cname, path)]
                 if not ok:
                     L.append(f"-- {cname}.{path}: NOT contiguous in memory bit order (unsupported)")
                     continue
                 L.append(f"def {member_ident(cname, path)} : Mem := ⟨{pos // 8}, {pos % 8}, {width}⟩")
                 memtab.append((cname, path, pos // 8, pos % 8, width))
-            elif kind == "arr":
+            elif kind in ("arr", "selfarr"):
                 off, size = pr["arr"][(cname, path)]
                 L.append(f"def {member_ident(cname, path)} : Mem := ⟨{off}, 0, {8 * size}⟩")
                 memtab.append((cname, path, off, 0, 8 * size))
